@@ -33,7 +33,7 @@ RULE = ("types: every constructor spine over {Vec, HashSet, Option, Result, Hash
         "1-tuple} to depth 2 (quick) / 3 (thorough) ending in each leaf {string, number, boolean, void, (), struct, enum-like name, mapped name}, "
         "plus random types to depth 6, each rendered by the five renderers and placed at a struct field, a parameter, parameter+channel, "
         "channel only (optionally with an enum and a member-less struct) through both real generators; malformed: 400 / 5000 TypeStructure values and mappings outside the feature set "
-        "(unknown primitives, non-identifier names, non-primitive mapping targets, any key type) where only model = implementation for the five renderers is compared; 15 % of the type cases use serialised names that need quoting as keys and odd enum literals; projects: random graph projects (tools/projgen.py, incl. tuples of generics, renamed fields, raw identifiers) generated by the "
+        "(unknown primitives, non-identifier names, non-primitive mapping targets, any key type) where only model = implementation for the five renderers is compared; 350 cases with several parameters per command and several commands whose types render alike in one renderer only (Vec/HashSet, T/Result<T>), 300 cases with mapping targets beyond the primitives (unknown, any, number[], Date, Record, tuple, union) at field/parameter/channel position; 15 % of the type cases use serialised names that need quoting as keys and odd enum literals; projects: random graph projects (tools/projgen.py, incl. tuples of generics, renamed fields, raw identifiers) generated by the "
         "real CLI in both modes. Non-trivial = the type has at least one constructor / the project emits at least one struct; "
         "distinct = distinct cases")
 TRUSTED = [
